@@ -58,6 +58,7 @@ def plain(f):
 PROFILES = {
     # which functions, pure bodies?, extra event kinds, threads
     "C01": dict(sel=lambda f: True, pure=True, events=["tick", "invw", "tag", "invc"], threads=2),
+    "C02": dict(sel=lambda f: f["sig"] in (1, 2, 4, 5), pure=True, events=[], threads=2),
     "C03": dict(sel=plain, pure=True, events=[], threads=3),
     "C09": dict(sel=lambda f: f["is_result"] and not f["cache_if"], pure=False, events=["tick"], threads=1),
     "C10": dict(sel=lambda f: f["cache_if"], pure=False, events=["tick"], threads=1),
@@ -134,7 +135,10 @@ def gen_async_case(r, fns):
             elif k == 7:
                 evs.append("E 0 tag t1")
             elif k == 8:
-                evs.append("E %d nop" % r.pick([1000, 2000]))
+                if r.chance(1, 6):
+                    evs.append("E 2000 rsleep 1100")       # real time passes while the call is suspended
+                else:
+                    evs.append("E %d nop" % r.pick([1000, 2000]))
             else:
                 evs.append("E 0 sget %d" % f["idx"])
         evs.append("E %d %s" % (r.pick([0, 0, 1000]) if has_ttl else 0, "callB" if r.chance(1, 2) else "callD"))
